@@ -18,7 +18,7 @@ which uses a structured syntax for representing conditional statements and belie
 import logging
 import os
 
-from antlr4 import CommonTokenStream, InputStream
+from antlr4 import CommonTokenStream, InputStream, Token
 from antlr4.error.ErrorListener import ErrorListener
 
 from inference.belief_base import BeliefBase
@@ -430,6 +430,7 @@ def parse_formula(string: str):
 
     # Parse formula rule
     tree = parser.formula()
+    _require_end_of_input(tokens)
     visitor = myVisitor()
     # Initialize sigcheck so visitVar can record variables without attribute errors
     visitor.sigcheck = []
@@ -488,7 +489,26 @@ def _getParseTree(ckbs_string):
     parser.addErrorListener(_ThrowingErrorListener())
 
     tree = parser.ckbs()
+    _require_end_of_input(stream)
     return tree
+
+
+def _require_end_of_input(tokens: CommonTokenStream) -> None:
+    """
+    Reject text that continues after the parsed formula / belief base.
+
+    The start rules of the grammar do not end with EOF, so the parser stops
+    silently at the first token it cannot use; without this check the rest of
+    the input would be ignored. Trailing newlines are allowed.
+    """
+    while tokens.LA(1) == CKBParser.NEWLINE:
+        tokens.consume()
+    if tokens.LA(1) != Token.EOF:
+        rest = tokens.LT(1)
+        raise Exception(
+            f"Syntax error at line {rest.line}, column {rest.column}: "
+            f"unexpected input '{rest.text}' after the end of the expression"
+        )
 
 
 class _ThrowingErrorListener(ErrorListener):
